@@ -304,6 +304,12 @@ GATE_CASES = [
       for attr in ('gi_frame', 'gi_code', 'gi_yieldfrom', 'cr_frame', 'cr_code', 'cr_await', 'ag_frame', 'ag_code', 'ag_await',
                    'f_back', 'f_builtins', 'f_globals', 'f_locals', 'f_code', 'f_trace', 'tb_frame', 'tb_next', 'co_consts', 'co_names', 'co_code')],
     ("(1 for z in '').gi_frame.f_builtins", [], True, 'frame of a generator expression'),
+    # the same accesses inside the body of a lambda that an allowed function calls (key=, iter(callable, sentinel)): a body is checked like the rest
+    ('sorted([a], key=lambda s: s.__class__)', ['a', 'sorted'], True, 'dunder attribute inside a lambda body handed to a context function'),
+    ('max([a], key=lambda s: s.gi_frame)', ['a', 'max'], True, 'introspection attribute inside a lambda body'),
+    ('min([a], key=lambda s: "{0.__class__}".format(s))', ['a', 'min'], True, 'str.format inside a lambda body'),
+    ('next(iter(lambda s=a: s.__class__.__base__.__subclasses__(), 0))', ['a', 'next', 'iter'], True, 'dunder chain inside a lambda called through iter(callable, sentinel)'),
+    ('sorted([a], key=lambda s: open(s))', ['a', 'sorted'], True, 'call of a name outside the context inside a lambda body'),
     ('a', ['a'], False, 'name bound in the AST'),
     ('a + 1', ['a'], False, 'arithmetic on a bound name'),
     ('len(a)', ['a', 'len'], False, 'call of a context function'),
@@ -322,13 +328,17 @@ def _interp_gate(a, expression: str, ctx_names: list[str]):
     env.update({'ast': ast, 'UndefinedType': type('UndefinedType', (), {}), 'Undefined': None,
                 'SecurityError': 'SecurityError', 'type': type})
     tree = ast.parse(expression, mode='eval')
+    import collections
     calls = {
         'parse_expression': lambda s: tree,
         'check_eval_context': lambda c: None,
         'dict': dict,
+        'deque': collections.deque,
     }
 
     def methods(recv, name, args, kwargs):
+        if isinstance(recv, collections.deque) and name in ('popleft', 'pop', 'append', 'appendleft', 'extend', 'extendleft', 'clear'):
+            return getattr(recv, name)(*args)
         if recv is ast and name == 'walk':
             return list(ast.walk(*args))
         if recv is ast and name in ('iter_child_nodes', 'iter_fields'):
